@@ -764,6 +764,7 @@ def random_history(rng, length):
     for op in seed[: rng.choice([0, 2, 3, 3])]:
         ops.append(op)
         sim.apply(op)
+    kept: dict = {}
     while len(ops) < length:
         r = rng.random()
         if r < 0.03:
@@ -772,6 +773,16 @@ def random_history(rng, length):
             ops.append(rng.choice(QUERIES + BATTERY + QUERIES2))
         else:
             op = gen_mut()
+            if op[0] in ("add_surrogate", "update_surrogate") and isinstance(op[2], dict):
+                # now and then the caller keeps the surrogate object, and later passes that very object again
+                r2 = rng.random()
+                if kept and r2 < 0.15:
+                    t = rng.choice(sorted(kept))
+                    op = [op[0], op[1], {**kept[t], "alias": t}] + list(op[3:])
+                elif r2 < 0.35:
+                    t = f"T{len(kept)}"
+                    kept[t] = dict(op[2])
+                    op = [op[0], op[1], {**op[2], "tag": t}] + list(op[3:])
             ops.append(op)
             sim.apply(op)
     return {"ops": ops + BATTERY[-2:], "check_from": 0, "stratum": "random", "shape": f"random:len{(length // 5) * 5}"}
